@@ -10,7 +10,7 @@ from __future__ import annotations
 import ast
 
 from mlmverif import cfg as cfgm
-from mlmverif.core import (parent_map, AnalysisError, Ctx, FuncInfo, is_self_attr, kwarg,
+from mlmverif.core import (is_increment, increment_target, parent_map, AnalysisError, Ctx, FuncInfo, is_self_attr, kwarg,
                            unparse, walk_no_nested)
 from mlmverif.props import c06, c14
 
@@ -89,10 +89,10 @@ def r1(ctx: Ctx):
   incs = []
   for l in loops:
     for s in l.body:
-      if isinstance(s, ast.AugAssign) and isinstance(s.op, ast.Add) and unparse(s.value) == '1':
+      if is_increment(s):
         incs.append(s)
-  nested_incs = [x for l in loops for x in ast.walk(l) if isinstance(x, ast.AugAssign)
-                 and isinstance(x.op, ast.Add) and unparse(x.value) == '1' and 'cnt' in unparse(x.target)]
+  cnt_names = {increment_target(s) for s in incs}
+  nested_incs = [x for l in loops for x in ast.walk(l) if is_increment(x) and increment_target(x) in cnt_names]
   if len(loops) == 1 and len(incs) == 1 and len(nested_incs) == 1:
     ctx.ok(rule, fi, 'states_cnt += 1 once per state', incs[0])
   else:
